@@ -3,6 +3,7 @@ module grog/verif
 go 1.26.0
 
 require (
+	github.com/charmbracelet/bubbletea v1.3.10
 	gopkg.in/yaml.v3 v3.0.1
 	grog v0.0.0
 	pgregory.net/rapid v1.3.0
@@ -46,7 +47,6 @@ require (
 	github.com/bmatcuk/doublestar/v4 v4.9.1 // indirect
 	github.com/boyter/gocodewalker v1.5.1 // indirect
 	github.com/cespare/xxhash/v2 v2.3.0 // indirect
-	github.com/charmbracelet/bubbletea v1.3.10 // indirect
 	github.com/charmbracelet/colorprofile v0.3.3 // indirect
 	github.com/charmbracelet/lipgloss v1.1.0 // indirect
 	github.com/charmbracelet/x/ansi v0.11.2 // indirect
